@@ -32,7 +32,7 @@ def handleLine (line : String) : String :=
   match words line with
   | "SHA256" :: [m] => bytesToHex (Sha256.hash (parseBytes m))
   | "C01" :: rest => FieldOps.handle rest
-  | "C15" :: "sha256" :: rest => Transcript.handle Sha256.hash rest
+  | "C15" :: rest => Transcript.handle rest
   | "C10" :: rest => FFT.handle rest
   | "C11" :: rest => KZG.handle rest
   | "C19" :: rest => Alias.handle rest
